@@ -249,8 +249,11 @@ Theorem C14_side_active_module_sites :
   /\ gen_unwind_truncates_then_loads = true /\ gen_globals_use_active_module = true
   /\ gen_closure_takes_active_module = true.
 Proof. vm_compute; repeat split; reflexivity. Qed.
-Theorem C14_side_builtin_names_known : forallb (fun b => negb (String.eqb b "?")) B = true /\ existsb (String.eqb "print") B = true.
-Proof. vm_compute; split; reflexivity. Qed.
+(* every global init_built_in_globals installs goes into the module it was called for (its `module_path` argument), none
+   into a fixed module such as "main"; B = exactly those names *)
+Theorem C14_side_builtin_names_known :
+  gen_builtin_misinstalled = [] /\ map fst gen_builtin_installs = B /\ existsb (String.eqb "print") B = true.
+Proof. vm_compute; repeat split; reflexivity. Qed.
 
 (* --- every name module main has at start-up is defined by init_built_in_globals, hence in every module --- *)
 Theorem C14_side_no_main_only_names : main_only = [].
